@@ -282,7 +282,7 @@ Section Machine.
     | sym :: r => s <- step rm ns s sid sym ;; sym_loop rm ns r (sid + 1) s
     end.
 
-  (** one interior start face (lines 879-927) attached to the popped corner [a] *)
+  (** one interior start face (lines 879-932) attached to the popped corner [a] *)
   Definition start_face (nf : Z) (s : st) (a : Z) : res st :=
     if nfaces s >=? nf then Reject else
     vn <- vertex s (next_c a) ;;
@@ -295,6 +295,8 @@ Section Machine.
     fr <- all_free s [a; b; c] ;;
     if negb fr then Reject else
     vp <- vertex s (next_c c) ;;
+    vw <- vertex s (prev_c a) ;;
+    if negb (vw =? vp) then Reject else                              (* Vertex(Previous(corner_a)) != vert_p: the three edges do not form a triangle *)
     let face := nfaces s in
     let s := with_nfaces s (face + 1) in
     let ncn := 3 * face in
